@@ -33,7 +33,8 @@ class SocWorld(World):
                        "hardware side: pins, event lines, read-only field values (seeded)")
     fault_kinds = ("aborted_register_transaction", "idle_gap", "cyc_without_stb", "back_to_back",
                    "partial_select", "zero_select", "unassigned_address", "window_edge_address",
-                   "hardware_toggle_between_transactions", "write_to_read_only_sram")
+                   "hardware_toggle_between_transactions", "write_to_read_only_sram",
+                   "abandoned_query")
     assumptions = (
         "Amaranth's Python RTL simulator executes the elaborated netlists faithfully",
         "register values are never modelled: bus-side data is compared with what the leaf's own "
@@ -118,7 +119,7 @@ class SocWorld(World):
         items, need = self._gen_wb_items(rng, cw, ratio, al, 0, 10)
         gaw = max(log2(ratio) + 1, 3, need) + rng.choice([0, 0, 1])
         return {"root": "wb", "cw": cw, "D": D, "gaw": gaw, "al": al, "items": items,
-                "hwseed": rng.bits(32)}
+                "hwseed": rng.bits(32), "peek": rng.range(1, 4) if rng.chance(0.3) else None}
 
     def _gen_wb_items(self, rng, cw, ratio, al, depth, max_gaw):
         """Returns (items, address width needed to hold them)."""
@@ -354,6 +355,14 @@ class SocWorld(World):
         gaw = mm.addr_width
         nwords = (1 << gaw) // ratio
         sim = hw.build_sim(hw.make_top(*ctx["mods"]))
+        if config.get("peek") is not None:
+            # a user-style early-exit lookup ("find the first register ...") abandons the iteration
+            it = mm.all_resources()
+            for _ in range(int(config["peek"])):
+                if next(it, None) is None:
+                    break
+            del it
+            stats.fault("abandoned_query")
         infos = list(mm.all_resources())
         reginfos = [i for i in infos if hasattr(i.resource, "element")]
         specs = []
@@ -512,7 +521,12 @@ class SocWorld(World):
                     reg_i = None
                     if res is not None and hasattr(res, "element"):
                         info = mm.find_resource(res)
-                        reg_i = [i for i, ri in enumerate(reginfos) if ri.resource is res][0]
+                        hits = [i for i, ri in enumerate(reginfos) if ri.resource is res]
+                        if not hits:
+                            raise Violation("C01", "memory-map-queries-disagree", state["t"],
+                                            f"decode_address({a:#x}) returns {tuple(map(tuple, info.path))} "
+                                            f"which all_resources() does not list")
+                        reg_i = hits[0]
                         if (info.start, info.end) != (specs[reg_i].start, specs[reg_i].end):
                             raise Violation("C01", "find_resource-disagrees-with-all_resources",
                                             state["t"], f"{info.path}")
